@@ -6,7 +6,7 @@
 From Coq Require Import QArith.
 From TU Require Import Base C13_Model C13_Walk C13_F1 C13_Ws C13_Sp C13_Proofs.
 From TU Require C10_Model C11_Model C12_Model C18_Model.
-From Coq Require Reals.
+From Coq Require Reals Qreals.
 From Flocq Require Core IEEE754.BinarySingleNaN.
 From TU Require C13_Float C13_FloatProofs.
 Open Scope nat_scope.
@@ -165,7 +165,7 @@ Print Assumptions check_run.
 
 (** ** binary64: the arithmetic of the metrics inside the model (C13_Float.v) *)
 Module Fl.
-Import Reals Core BinarySingleNaN C13_Float C13_FloatProofs.
+Import Reals Qreals Core BinarySingleNaN C13_Float C13_FloatProofs.
 
 (** "F-beta <= 1" is FALSE of the expression [_f1] had before the repair (/repo d11): for
     tp = 1000, fp = 0, fn = 2, beta = 1.9243201927590334e-08 the binary64 result is 1 + 2^-52 *)
@@ -184,6 +184,90 @@ Theorem f1_fl_le_1_refuted_huge :
   (1 < B2R (c1f (f1_fl_pinned beta_huge 1390 2 0)))%R.
 Proof. exact f1_fl_le_1_refuted_huge_l. Qed.
 Print Assumptions f1_fl_le_1_refuted_huge.
+
+Local Open Scope R_scope.
+(** a float that is finite and, as a real number, in [0,1] *)
+Definition fin01 (x : f64) : Prop := is_finite x = true /\ 0 <= B2R x <= 1.
+
+(** (1) precision / recall = [a as f64 / b.max(1) as f64] for counts 0 <= a <= b < 2^53 (so that [as f64]
+    is exact): the correctly rounded quotient, finite, in [0,1], = 0 iff a = 0, = 1 iff a = b > 0,
+    at least 2^-53 when a > 0 and at most 1 - 2^-53 when a < b *)
+Theorem prec_rec_fl_range : forall a b, (0 <= a <= b)%Z -> (b < 2 ^ 53)%Z ->
+  is_finite (ratio_fl a b) = true /\
+  B2R (ratio_fl a b) = round radix2 (SpecFloat.fexp 53 1024) ZnearestE (IZR a / IZR (Z.max b 1)) /\
+  0 <= B2R (ratio_fl a b) <= 1 /\
+  (B2R (ratio_fl a b) = 0 <-> a = 0%Z) /\
+  (B2R (ratio_fl a b) = 1 <-> (a = b /\ 0 < a)%Z) /\
+  ((0 < a)%Z -> bpow radix2 (-53) <= B2R (ratio_fl a b)) /\
+  ((a < b)%Z -> B2R (ratio_fl a b) <= 1 - bpow radix2 (-53)).
+Proof. exact ratio_fl_spec. Qed.
+Print Assumptions prec_rec_fl_range.
+
+(** (6) the REPAIRED [_f1] (as committed in /repo): for all counts with tp + fp, tp + fn < 2^53 and every
+    beta whose square is finite in binary64 (this implies beta finite; |beta| <= 2^511 suffices),
+    F-beta, precision and recall are finite and in [0,1] *)
+Theorem f1_fixed_range : forall beta tp fp fn,
+  is_finite (fmul beta beta) = true ->
+  (Z.of_nat (tp + fp) < 2 ^ 53)%Z -> (Z.of_nat (tp + fn) < 2 ^ 53)%Z ->
+  fin01 (c1f (f1_fl beta tp fp fn)) /\ fin01 (c2f (f1_fl beta tp fp fn)) /\ fin01 (c3f (f1_fl beta tp fp fn)).
+Proof. exact f1_fixed_range_l. Qed.
+Print Assumptions f1_fixed_range.
+
+(** calibration holds exactly in binary64: no true positive: (0,0,0) for EVERY beta (NaN included);
+    no false positive/negative and a true positive: exactly (1.0, 1.0, 1.0) *)
+Theorem f1_fl_calibrated : forall beta,
+  (forall fp fn, (Z.of_nat fp < 2 ^ 53)%Z -> (Z.of_nat fn < 2 ^ 53)%Z ->
+     B2R (c1f (f1_fl beta 0 fp fn)) = 0 /\ B2R (c2f (f1_fl beta 0 fp fn)) = 0 /\ B2R (c3f (f1_fl beta 0 fp fn)) = 0
+     /\ is_finite (c1f (f1_fl beta 0 fp fn)) = true) /\
+  (is_finite (fmul beta beta) = true -> forall tp, (0 < tp)%nat -> (Z.of_nat tp < 2 ^ 53)%Z ->
+     B2R (c1f (f1_fl beta tp 0 0)) = 1 /\ B2R (c2f (f1_fl beta tp 0 0)) = 1 /\ B2R (c3f (f1_fl beta tp 0 0)) = 1
+     /\ is_finite (c1f (f1_fl beta tp 0 0)) = true).
+Proof. exact f1_fl_calibrated_l. Qed.
+Print Assumptions f1_fl_calibrated.
+
+(** (4) averaging never leaves [0,1]: the left fold of f64 additions from 0.0 over n <= 2^53 floats in [0,1]
+    is finite and at most n (every partial sum is bounded by its exactly representable index), and
+    divided by max(n,1) as f64 it is in [0,1] *)
+Theorem seq_avg_fl_range : forall l : list f64, Forall fin01 l -> (Z.of_nat (length l) <= 2 ^ 53)%Z ->
+  (is_finite (fold_left fadd l f_zero) = true /\
+   0 <= B2R (fold_left fadd l f_zero) <= IZR (Z.of_nat (length l))) /\
+  fin01 (fdiv (fold_left fadd l f_zero) (of_nat (Nat.max (length l) 1))).
+Proof. intros l H N. split; [exact (sum_fl_range_l l H N)|exact (mean_fl_range_l l H N)]. Qed.
+Print Assumptions seq_avg_fl_range.
+
+(** both aggregates of the model ([micro_f1], [sequence_averaged_f1]) in binary64: all three results
+    finite and in [0,1] when the summed counts stay below 2^53 *)
+Theorem aggregate_fl_range : forall seq_avg beta vals,
+  is_finite (fmul beta beta) = true ->
+  (Z.of_nat (total tp_of vals + total fp_of vals) < 2 ^ 53)%Z /\
+  (Z.of_nat (total tp_of vals + total fn_of vals) < 2 ^ 53)%Z ->
+  (Z.of_nat (length vals) <= 2 ^ 53)%Z ->
+  let x := aggregate_fl seq_avg beta vals in fin01 (c1f x) /\ fin01 (c2f x) /\ fin01 (c3f x).
+Proof. exact aggregate_fl_range_l. Qed.
+Print Assumptions aggregate_fl_range.
+
+Theorem binary_f1_fl_range : forall beta p t x,
+  is_finite (fmul beta beta) = true -> (Z.of_nat (length p) < 2 ^ 53)%Z ->
+  binary_f1_fl beta p t = Some x -> fin01 (c1f x) /\ fin01 (c2f x) /\ fin01 (c3f x).
+Proof. exact binary_f1_fl_range_l. Qed.
+Print Assumptions binary_f1_fl_range.
+
+Theorem accuracy_fl_range : forall p t x,
+  (Z.of_nat (length p) < 2 ^ 53)%Z -> accuracy_fl p t = Some x -> fin01 x.
+Proof. exact accuracy_fl_range_l. Qed.
+Print Assumptions accuracy_fl_range.
+
+(** (5, partial) the binary64 precision and recall are within relative 2^-53 of the rational model's
+    ([C13_Model.f1], about which [f1_range] ... [check_run] above speak). The same for F-beta is not proved:
+    see notes/C13.md. *)
+Theorem q_close_partial : forall (betaq : Q) beta tp fp fn,
+  (Z.of_nat (tp + fp) < 2 ^ 53)%Z -> (Z.of_nat (tp + fn) < 2 ^ 53)%Z ->
+  Rabs (B2R (c2f (f1_fl beta tp fp fn)) - Q2R (c2 (f1 betaq tp fp fn)))
+    <= bpow radix2 (-53) * Q2R (c2 (f1 betaq tp fp fn)) /\
+  Rabs (B2R (c3f (f1_fl beta tp fp fn)) - Q2R (c3 (f1 betaq tp fp fn)))
+    <= bpow radix2 (-53) * Q2R (c3 (f1 betaq tp fp fn)).
+Proof. exact f1_q_close_pr_l. Qed.
+Print Assumptions q_close_partial.
 End Fl.
 
 (** ** non-vacuity *)
